@@ -97,7 +97,7 @@ CHECKS = {
    note="bounds: two scenarios, one block each, revision 54460 (thorough: also 54459, 54453, 54445), compression off; switch points are channel operations, close(ch), WaitGroup.Wait and every call on the connection - orderings that need a preemption between two other statements are outside (cooperative coroutines); native replays of schedule-dependent counterexamples are repeated with random delays at the harness' yield points"),
  "C10": dict(
    level="model_checking",
-   text="The caller's context is a harness type whose cancellation flips at the k-th observation (every Err/Done/Deadline call is a gate; k enumerated 0..10/24), for the select and insert scenarios, a responsive or a forever-silent server, writes that work or fail from the moment the context is done, and five scheduling policies; plus the same during Connect's hello exchange. When Do fails after the flip: errors.Is(err, context.Canceled), connection closed, client closed, the written bytes are a prefix of the reference stream ending at a flush boundary followed by at most one byte, which must be the Cancel code 3, and no goroutine of the call is left (engine-level leak check); with no caller deadline, a deadline one hour away, and deadlines that themselves expire (error must match context.DeadlineExceeded), the call is back within 3 s of the cancellation on the harness' virtual clock (a blocked read returns at the deadline the client set, so a read deadline taken from the caller's deadline instead of ReadTimeout shows as lateness); a loop that never observes the cancellation is reported as does-not-return.",
+   text="The caller's context is a harness type whose cancellation flips at the k-th observation (every Err/Done/Deadline call is a gate; k enumerated 0..10/24), for the select and insert scenarios, a responsive or a forever-silent server, writes that work, fail, or block because the peer has stopped reading (until the write deadline, if one is still set, or until the connection is closed) from the moment the context is done, a server that is done, silent, or streaming a packet every 100 ms, and five scheduling policies; plus the same during Connect's hello exchange. When Do fails after the flip: errors.Is(err, context.Canceled), connection closed, client closed, the written bytes are a prefix of the reference stream ending at a flush boundary followed by at most one byte, which must be the Cancel code 3, and no goroutine of the call is left (engine-level leak check); with no caller deadline, a deadline one hour away, and deadlines that themselves expire (error must match context.DeadlineExceeded), the call is back within 3 s of the cancellation on the harness' virtual clock (a blocked read returns at the deadline the client set, so a read deadline taken from the caller's deadline instead of ReadTimeout shows as lateness); a loop that never observes the cancellation is reported as does-not-return.",
    ref="DESIGN.md §4 C10",
    note="bounds: gates <=10 (quick)/24; promptness is measured on the harness' virtual clock (time.Now is a model; a blocked Read advances it to the read deadline), real wall-clock time and goroutines blocked in a real kernel read are outside; a deadline context expires at its deadline on that clock (2.5 s and 0.4 s against ReadTimeout 1 s) and the error must then match context.DeadlineExceeded; the handshake harness uses cancellation only; non-preemptive schedules only"),
  "C11": dict(
